@@ -50,8 +50,9 @@ def _desc(draw, tier):
     box = draw(st.sampled_from([1.0, 64.0, 123.0, 2000.0, 7.3, 0.37]))
     pd = draw(st.sampled_from(['f4', 'f4', 'f8']))
     gd = draw(st.sampled_from(['f4', 'f4', 'f8']))
-    offk = draw(st.sampled_from(['0', '0', 'half', 'rand']))
-    offfrac = {'0': 0.0, 'half': 0.5, 'rand': draw(st.floats(0.0, 0.999))}[offk]
+    offk = draw(st.sampled_from(['0', '0', 'half', 'rand', 'neg']))
+    # sub-cell offsets of either sign (a negative one shifts the deposit towards lower cells; negative grid indices wrap)
+    offfrac = {'0': 0.0, 'half': 0.5, 'rand': draw(st.floats(0.0, 0.999)), 'neg': -draw(st.floats(0.05, 0.999))}[offk]
     if kind == 'cic':
         offfrac = 0.0
     wk = draw(st.sampled_from(['none', 'pos', 'pos', 'signed']))
@@ -151,7 +152,7 @@ def nontrivial(d):
 
 
 def classes(d):
-    c = [d['kind'], 'pos=' + d['pd'], 'grid=' + d['gd'], 'weights=' + d['wk'], 'offset=' + ('0' if d['offfrac'] == 0 else 'half' if d['offfrac'] == 0.5 else 'rand'),
+    c = [d['kind'], 'pos=' + d['pd'], 'grid=' + d['gd'], 'weights=' + d['wk'], 'offset=' + ('0' if d['offfrac'] == 0 else 'half' if d['offfrac'] == 0.5 else 'neg' if d['offfrac'] < 0 else 'rand'),
          'cubic' if len(set(d['shape'])) == 1 else ('flat-z' if d['shape'][2] == 1 else 'anisotropic'), 'nthread=%d' % d['nthread'], 'n=0' if not d['pts'] else 'n>0', 'gridlayout=' + d.get('gridlayout', 'C'), 'npartition=' + str(d['npartition'])]
     return c
 
@@ -289,9 +290,8 @@ def run_case(d):
         pin = pos.copy()
         if d['kind'] == 'cic':
             # get_field shifts CIC positions itself (pos + d); keep pos + d inside [0, L]
+            # (positions + d may reach [L, L + h/2): that is what the interlaced estimator passes; the kernel's right-wrap covers it)
             dd = float(d['shift'][1] % 2) * 0.5 * box / shape[0]
-            if np.any(pin.astype(np.float64) + dd >= box):
-                dd = 0.0
         with warnings.catch_warnings():
             warnings.simplefilter('ignore')
             f = call_repo(ps.get_field, pin, box, shape[0], d['kind'].upper(), w=None if w is None else w.copy(), d=dd, nthread=d['nthread'])
